@@ -19,7 +19,7 @@ Earlies == {"none", "m1", "q", "l", "bin"}
 FlagEarlies == {"none", "m1", "q", "l"}
 Exits == {"0", "1", "255", "kill"}
 Threads == {1, 4}
-PreGlobs == {"none", "sel", "unsel", "negsel", "negunsel"}
+PreGlobs == {"none", "sel", "unsel", "negsel", "negunsel", "selz", "unselz", "negunselz"}
 Xforms == {"echo", "swap", "fixed", "nothing"}
 Codecs == {"gzip", "bzip2", "xz"}
 \* (timing, tail): the long tail only makes sense for a command that gets to the end of its output
@@ -66,7 +66,9 @@ ZipFam(e, t) ==
      : c \in SmallContents, cd \in Codecs, zs \in (IF e = "none" THEN {"unrec", "nocmd", "noisy"} ELSE {"unrec", "noisy"})}
   \cup (IF e # "none" THEN {} ELSE
         {S("z", c, "echo", "small", "last", "1", "after", tl, e, "none", t, cd, "trunc")
-           : c \in SmallContents, tl \in {"short", "long"}, cd \in Codecs})
+           : c \in SmallContents, tl \in {"short", "long"}, cd \in Codecs}
+        \* the shortest truncation: a compressed-named file of zero bytes (not a valid empty archive: the tools fail on it)
+        \cup {S("z", <<"m">>, "echo", "small", "last", "1", "after", "short", e, "none", t, cd, "empty") : cd \in Codecs})
 
 MCScenariosOf(seed) ==
   LET f == seed[1] e == seed[2] t == seed[3] IN
